@@ -79,7 +79,16 @@ func nativeReplay(repo, verifDir, cfgDir string, cfg Config, rc RunCfg, replayPa
 	test := fmt.Sprintf("//go:build verif\n\npackage %s\n\nimport (\n\t\"testing\"\n\tzzverif \"%s\"\n)\n\nfunc TestVerifReplay(t *testing.T) { zzverif.RunReplay(%s) }\n", pkgName, VerifPkgPath, rc.Fn)
 	add(filepath.Join(pkgDir, "zz_verif_replay_test.go"), []byte(test))
 	// controlled clock: rewrite time.Now()/time.Since( in the package's own files
+	usesClock := false
+	for k := range rf.Inputs {
+		if k == "now" || strings.HasPrefix(k, "now!") {
+			usesClock = true
+		}
+	}
 	ents, _ := os.ReadDir(pkgDir)
+	if !usesClock {
+		ents = nil
+	}
 	for _, en := range ents {
 		n := en.Name()
 		if !strings.HasSuffix(n, ".go") || strings.HasSuffix(n, "_test.go") {
@@ -92,9 +101,7 @@ func nativeReplay(repo, verifDir, cfgDir string, cfg Config, rc RunCfg, replayPa
 		out := timeNowRe.ReplaceAll(src, []byte("zzverifclock.Now()"))
 		out = timeSinceRe.ReplaceAll(out, []byte("zzverifclock.Since("))
 		out = addImport(out, "zzverifclock \""+VerifPkgPath+"\"")
-		if !strings.Contains(string(out), "time.") {
-			out = append(out, []byte("\nvar _ = time.Second\n")...)
-		}
+		out = append(out, []byte("\nvar _ = time.Second\n")...)
 		add(filepath.Join(pkgDir, n), out)
 	}
 	ov, _ := json.Marshal(map[string]interface{}{"Replace": repl})
